@@ -53,6 +53,9 @@ pub enum Artefact {
     Compressed { codec: CodecSpec, raw: Vec<u8> },
     /// arbitrary bytes against the datum entry points
     Raw { schema: RS, bytes: Vec<u8> },
+    /// an array / map written as several blocks, each count chosen against the limit: every block
+    /// alone is within it, their sum is not (`neg`: counts written negative, followed by a byte size)
+    Blocks { schema: RS, counts: Vec<i64>, neg: bool },
     /// every byte string of length <= max_len against the datum entry points
     Exhaustive { schema: RS, max_len: u8 },
 }
@@ -65,6 +68,7 @@ impl Artefact {
             Artefact::Container { .. } => "container",
             Artefact::Compressed { .. } => "compressed_block",
             Artefact::Raw { .. } => "raw_bytes",
+            Artefact::Blocks { .. } => "multi_block_collection",
             Artefact::Exhaustive { .. } => "exhaustive_short",
         }
     }
@@ -180,6 +184,31 @@ fn build(a: &Artefact) -> Option<Built> {
         Artefact::Exhaustive { schema, .. } => {
             let p = parse_rs(schema)?;
             Some(Built { bytes: vec![], fields: vec![], schema: Some(p.schema), items: 1 })
+        }
+        Artefact::Blocks { schema, counts, neg } => {
+            let p = parse_rs(schema)?;
+            let (item, is_map): (&[u8], bool) = match schema {
+                RS::Array(t) if **t == RS::Long => (&[2], false),
+                RS::Map(_) => (&[2, b'k'], true),
+                _ => (&[], false),
+            };
+            let _ = is_map;
+            let mut bytes = vec![];
+            let mut fields = vec![];
+            for c in counts {
+                fields.push(bytes.len());
+                if *neg {
+                    refimpl::put_long(&mut bytes, -*c);
+                    refimpl::put_long(&mut bytes, (*c as usize * item.len()) as i64);
+                } else {
+                    refimpl::put_long(&mut bytes, *c);
+                }
+                for _ in 0..*c {
+                    bytes.extend_from_slice(item);
+                }
+            }
+            bytes.push(0);
+            Some(Built { bytes, fields, schema: Some(p.schema), items: 1 })
         }
     }
 }
@@ -307,6 +336,7 @@ where
     let mut src = SimSource::new(bytes, plan.clone());
     src.call_budget = call_budget(bytes.len());
     let (r, window) = alloc::observe(|| guarded(|| f(&mut src)));
+    tick_slot();
     let (outcome, err, panic) = match r {
         Err(p) => ("panic", String::new(), Some(p)),
         Ok(Ok(())) => ("ok", String::new(), None),
@@ -405,7 +435,7 @@ fn datum_calls(schema: &Schema, bytes: &[u8], plan: &SourcePlan, limit: usize, r
 fn run_calls(case: &Case, b: &Built, bytes: &[u8], limit: usize) -> Vec<CallObs> {
     let plan = plan_of(case);
     match &case.artefact {
-        Artefact::Datum { .. } | Artefact::Raw { .. } | Artefact::Exhaustive { .. } => {
+        Artefact::Datum { .. } | Artefact::Raw { .. } | Artefact::Exhaustive { .. } | Artefact::Blocks { .. } => {
             datum_calls(b.schema.as_ref().unwrap(), bytes, &plan, limit, case.reader_schema)
         }
         Artefact::Single { .. } => {
@@ -485,6 +515,16 @@ fn run_calls(case: &Case, b: &Built, bytes: &[u8], limit: usize) -> Vec<CallObs>
 
 /// Heartbeat slots for the watchdog: run index + 1 per worker thread, 0 when idle.
 pub static SLOTS: [AtomicU64; 64] = [const { AtomicU64::new(0) }; 64];
+/// Per slot: number of library calls completed by the worker (a worker whose counter stands still
+/// while it is inside a run is stuck in one call, whatever the other workers do).
+pub static SLOT_TICKS: [AtomicU64; 64] = [const { AtomicU64::new(0) }; 64];
+thread_local! {
+    static MY_TICKS: std::cell::Cell<u64> = const { std::cell::Cell::new(0) };
+}
+fn tick_slot() {
+    let slot = MY_SLOT.with(|s| *s);
+    SLOT_TICKS[slot].fetch_add(1, Ordering::Relaxed);
+}
 pub static PROGRESS: AtomicU64 = AtomicU64::new(0);
 static NEXT_SLOT: AtomicUsize = AtomicUsize::new(0);
 thread_local! {
@@ -805,6 +845,27 @@ impl Property for C05 {
                 let raw = if wr.chance(3, 4) { vec![*wr.pick(&[0u8, 7, 255]); n] } else { wr.bytes(n.min(5000)) };
                 Artefact::Compressed { codec, raw }
             }
+            10 if limit != DEFAULT_LIMIT && wr.chance(1, 2) => {
+                // per-block counts at the edge of the limit, sums beyond it
+                let l = limit.min(1 << 20) as i64;
+                let (schema, unit, data_per_item) = match wr.below(4) {
+                    0 | 1 => (RS::Array(Box::new(RS::Null)), 56i64, 0usize),
+                    2 => (RS::Map(Box::new(RS::Null)), 80, 2),
+                    _ => (RS::Array(Box::new(RS::Long)), 56, 1),
+                };
+                let base = match wr.below(4) {
+                    0 => l / unit,
+                    1 => (l / unit - 1).max(1),
+                    2 => (l / unit / 2).max(1),
+                    _ => l.max(1),
+                };
+                let mut k = *wr.pick(&[2usize, 3, 8, 24, 40, 64]);
+                if data_per_item > 0 {
+                    // items that occupy bytes: keep the input below ~256 KiB
+                    k = k.min(((256 << 10) / (base as usize * data_per_item).max(1)).max(2));
+                }
+                Artefact::Blocks { schema, counts: vec![base; k], neg: wr.chance(1, 3) }
+            }
             _ => {
                 let n = wr.usize_below(24);
                 Artefact::Raw { schema, bytes: wr.bytes(n) }
@@ -812,6 +873,7 @@ impl Property for C05 {
         };
         let nd = match &artefact {
             Artefact::Raw { .. } => 0,
+            Artefact::Blocks { .. } => *dr.pick(&[0usize, 0, 0, 1]),
             _ => *dr.pick(&[0usize, 1, 1, 1, 2, 3]),
         };
         let approx_len = 64 + 64 * nd;
@@ -966,6 +1028,21 @@ impl Property for C05 {
                 }
             }
             Artefact::Exhaustive { .. } => {}
+            Artefact::Blocks { schema, counts, neg } => {
+                if counts.len() > 2 {
+                    let mut c = case.clone();
+                    c.artefact = Artefact::Blocks { schema: schema.clone(), counts: counts[..counts.len() / 2 + 1].to_vec(), neg: *neg };
+                    out.push(c);
+                    let mut c = case.clone();
+                    c.artefact = Artefact::Blocks { schema: schema.clone(), counts: counts[..counts.len() - 1].to_vec(), neg: *neg };
+                    out.push(c);
+                }
+                if *neg {
+                    let mut c = case.clone();
+                    c.artefact = Artefact::Blocks { schema: schema.clone(), counts: counts.clone(), neg: false };
+                    out.push(c);
+                }
+            }
         }
         out
     }
@@ -980,6 +1057,7 @@ impl Property for C05 {
             Artefact::Compressed { codec, raw } => json!({"artefact": "compressed_block", "codec": codec, "raw_len": raw.len()}),
             Artefact::Raw { schema, bytes } => json!({"artefact": "raw_bytes", "schema": to_json(schema), "len": bytes.len()}),
             Artefact::Exhaustive { schema, max_len } => json!({"artefact": "all byte strings", "max_len": max_len, "schema": to_json(schema)}),
+            Artefact::Blocks { schema, counts, neg } => json!({"artefact": "multi-block collection", "schema": to_json(schema), "blocks": counts.len(), "count_per_block": counts.first(), "negative_counts": neg}),
         };
         json!({"limit": case.limit, "input": a, "damages": case.damages, "chunk": case.chunk, "eintr_every": case.eintr_every, "err_at": case.err_at, "reader_schema": case.reader_schema})
     }
@@ -1015,21 +1093,21 @@ pub fn child_main(args: &[String]) -> i32 {
         println!("HARNESS-ERROR cannot install allocation limit {limit}");
         return 2;
     }
-    // watchdog: a worker stuck on the same run with no global progress for 30 s is a hang
+    // watchdog (backstop for loops that touch neither seam): a worker that stays inside one
+    // library call of one run for 60 s is a hang, whatever the other workers do
     std::thread::spawn(|| {
-        let mut last = (0u64, std::time::Instant::now());
+        let mut last: Vec<(u64, u64, std::time::Instant)> = (0..64).map(|_| (0, 0, std::time::Instant::now())).collect();
         loop {
             std::thread::sleep(std::time::Duration::from_millis(500));
-            let p = PROGRESS.load(Ordering::Relaxed);
-            if p != last.0 {
-                last = (p, std::time::Instant::now());
-            } else if last.1.elapsed().as_secs() >= 30 {
-                let stuck: Vec<u64> = SLOTS.iter().map(|s| s.load(Ordering::Relaxed)).filter(|v| *v > 0).map(|v| v - 1).collect();
-                if !stuck.is_empty() {
-                    eprintln!("HANG run={}", stuck[0]);
+            for i in 0..64 {
+                let run = SLOTS[i].load(Ordering::Relaxed);
+                let ticks = SLOT_TICKS[i].load(Ordering::Relaxed);
+                if run == 0 || (run, ticks) != (last[i].0, last[i].1) {
+                    last[i] = (run, ticks, std::time::Instant::now());
+                } else if last[i].2.elapsed().as_secs() >= 60 {
+                    eprintln!("HANG run={}", run - 1);
                     std::process::exit(3);
                 }
-                last = (p, std::time::Instant::now());
             }
         }
     });
